@@ -115,6 +115,21 @@ def _is_elem_position(expr, loop, elems, depth=0):
     return False
 
 
+def _signed_terms(e, sign=1):
+    if isinstance(e, ast.BinOp) and isinstance(e.op, (ast.Add, ast.Sub)):
+        return _signed_terms(e.left, sign) + _signed_terms(
+            e.right, sign if isinstance(e.op, ast.Add) else -sign)
+    return [(sign, e)]
+
+
+def _advances_from(e, v):
+    """e is an additive expression `v + ... - ...` with v as a positive
+    term (and only once)."""
+    terms = _signed_terms(e)
+    hits = [sg for sg, t in terms if isinstance(t, ast.Name) and t.id == v]
+    return len(terms) > 1 and hits == [1]
+
+
 def _classify(asg, v, loop, elems):
     """-> 'acc' | 'advance' | 'position' | None"""
     if isinstance(asg, ast.AugAssign):
@@ -130,8 +145,8 @@ def _classify(asg, v, loop, elems):
         # advance to own end variable: e = v + inc
         for d in _defs_in(loop, val.id):
             dv = d.value
-            if isinstance(dv, ast.BinOp) and isinstance(dv.op, ast.Add) \
-                    and v in _names(dv):
+            if (isinstance(dv, ast.BinOp) and isinstance(dv.op, ast.Add)
+                    and v in _names(dv)) or _advances_from(dv, v):
                 return 'advance'
     if _is_elem_position(val, loop, elems):
         return 'position'
@@ -158,8 +173,9 @@ def _end_vars(loop, v):
     out = set()
     for s in ast.walk(loop):
         if isinstance(s, ast.Assign) and isinstance(
-                s.value, ast.BinOp) and isinstance(s.value.op, ast.Add) \
-                and v in _names(s.value):
+                s.value, ast.BinOp) and ((isinstance(s.value.op, ast.Add)
+                                          and v in _names(s.value))
+                                         or _advances_from(s.value, v)):
             for t in s.targets:
                 if isinstance(t, ast.Name) and t.id != v:
                     out.add(t.id)
